@@ -62,11 +62,7 @@ func refParseStream(envelopedForm bool, dataFlag func(byte) (ok, compressed, end
 			return rs
 		}
 		payload := f.Payload
-		if compressed {
-			if comp == "" {
-				rs.Malformed = fmt.Sprintf("frame %d compressed without declared compression", i)
-				return rs
-			}
+		if compressed && comp != "" { // without a declared compression the bit has nothing to refer to: treated as plain data (abstention)
 			var err error
 			payload, err = refDecompress(comp, payload)
 			if err != nil {
@@ -191,7 +187,7 @@ func c09Oracle(p *Plan) *Verdict {
 		rp := &rc.Backend.Resp
 		scripted := len(b.Undecodable) == 0 // otherwise the backend answered with its own error
 		if scripted && (rp.CutAt > 0 || rp.DeclareCL != "" || p.Note == "resp-flag" || p.Note == "resp-len" || p.Note == "resp-bitflip" || rp.OmitEnd) {
-			respMalformed = respFaultMalformed(p, b)
+			respMalformed = respFaultMalformed(p, b, st)
 		}
 		if respMalformed != "" {
 			v.probe("response-malformed")
@@ -235,7 +231,7 @@ func c09Oracle(p *Plan) *Verdict {
 }
 
 // respFaultMalformed decides, from the script, whether the bytes the backend put on the wire are malformed for its protocol.
-func respFaultMalformed(p *Plan, b *BackendObs) string {
+func respFaultMalformed(p *Plan, b *BackendObs, st *rpcState) string {
 	rp := &p.RPCs[0].Backend.Resp
 	switch {
 	case rp.OmitEnd:
@@ -245,7 +241,20 @@ func respFaultMalformed(p *Plan, b *BackendObs) string {
 		return "no end of stream"
 	case rp.CutAt > 0:
 		if !b.Stream && rp.DeclareCL == "" {
-			return "" // without framing or a declared length a shorter body is just a shorter body
+			// without framing or a declared length a shorter body is just a shorter body, unless it no longer decodes
+			if len(st.respPayloads) == 1 && rp.CutAt < len(st.respPayloads[0]) {
+				_, md := planMethod(p, 0)
+				cut := st.respPayloads[0][:rp.CutAt]
+				comp := ""
+				if st.respComp != "" && rp.Msgs[0].Compressed {
+					comp = st.respComp
+				}
+				rs := refParseStream(false, nil, b.Codec, comp, cut, true, md.Output())
+				if rs.Malformed != "" {
+					return "truncated body: " + rs.Malformed
+				}
+			}
+			return ""
 		}
 		return fmt.Sprintf("response cut after %d bytes", rp.CutAt)
 	case p.Note == "resp-flag":
@@ -431,7 +440,7 @@ func c09Mutations(base *Plan, sample *Chooser, keep float64) []*Plan {
 				}
 			}
 		} else {
-			for _, d := range []string{"+1", "-1", "+5"} {
+			for _, d := range []string{"+1", "-1", "+5", "-6"} {
 				d := d
 				add("resp-cl", func(p *Plan) { p.RPCs[0].Backend.Resp.DeclareCL = d })
 			}
